@@ -566,7 +566,10 @@ class StmtMixin:
                 s.loc = dict(saved) if k == 'ok' else s.loc
                 out.extend(build(s, acc, None) if k == 'ok' else [(s, k, acc)])
             return out
+        if spec is not None and spec.summary is not None:
+            return self.comp_summary(n, g, st, it, elt_nodes, build, spec, ordinal)
         # symbolic length: element expression must be pure; result defined pointwise
+        start_n = next(self.n)
         j = self.fresh_initial(st, 'cj', Int)
         probe = st.fork()
         probe.assume(j >= 0, j < it.n)
@@ -606,6 +609,9 @@ class StmtMixin:
         if any(isinstance(x, Static) for x in vs):
             raise Unsupported('static comprehension element')
         extra = s3.pc[npc:]
+        for t in list(extra) + list(vs) + ([keep] if keep is not None else []):
+            if _mentions_fresh(t, start_n, j):
+                raise Unsupported('comprehension element introduces per-element symbols (needs a summary in the contract)')
         # the ok-condition must hold for every index: quantify the extra path facts
         st.loc = dict(saved)
         jj = [j]
@@ -613,6 +619,39 @@ class StmtMixin:
         if extra:
             st.assume(qforall(jj, z3.Implies(rng if keep is None else z3.And(rng, keep), z3.And(extra))))
         out.extend(build(st, None, (j, rng, keep, vs, it)))
+        return out
+
+    def comp_summary(self, n, g, st, it, elt_nodes, build, spec, ordinal):
+        """element behaviour given by the contract: proved for an arbitrary index, then assumed pointwise"""
+        saved = dict(st.loc)
+        top = st.ghost.get('$top', '?')
+        tag = '%s/comp%d' % (st.fn if st.fn != top else top, ordinal)
+        cx = st.ghost.get('$cx')
+        j = self.fresh_initial(st, 'cj', Int)
+        probe = st.fork()
+        probe.assume(j >= 0, j < it.n)
+        e = self.nth_e(it, j)
+        self.wf_load(probe, e)
+        out = []
+        from .stmt import LoopCtx as _L
+        for s1, o in self.assign(probe, g.target, e):
+            if o is not None:
+                s1.loc = dict(saved)
+                out.append((s1, 'exc', o[1]))
+                continue
+            if g.ifs:
+                raise Unsupported('summary for filtered comprehension')
+            for s3, k3, vs in self.ev_seq(elt_nodes, s1):
+                if k3 != 'ok':
+                    s3.loc = dict(saved)
+                    out.append((s3, k3, vs))
+                    continue
+                want = spec.summary(_L(self, cx, s3, j, it.n, it, st), j)
+                for idx, (v, w) in enumerate(zip(vs, want)):
+                    self.oblige(s3, '%s/elem:%d' % (tag, idx + 1), v == w, 'comp-elem')
+        Lq = _L(self, cx, st, j, it.n, it, st)
+        rng = z3.And(j >= 0, j < it.n)
+        out.extend(build(st, None, (j, rng, None, spec.summary(Lq, j), it)))
         return out
 
     def e_ListComp(self, n, st):
@@ -679,3 +718,25 @@ def _lab(items):
 def _as_load(t):
     t2 = ast.parse(ast.unparse(t), mode='eval').body
     return t2
+
+
+def _mentions_fresh(t, start_n, j):
+    if not isinstance(t, z3.ExprRef):
+        return False
+    todo, seen = [t], set()
+    while todo:
+        x = todo.pop()
+        if x.get_id() in seen:
+            continue
+        seen.add(x.get_id())
+        if z3.is_app(x):
+            if x.num_args() == 0 and x.decl().kind() == z3.Z3_OP_UNINTERPRETED:
+                nm = x.decl().name()
+                if '!' in nm and not z3.eq(x, j):
+                    tail = nm.rsplit('!', 1)[1]
+                    if tail.isdigit() and int(tail) > start_n:
+                        return True
+            todo.extend(x.children())
+        elif z3.is_quantifier(x):
+            todo.append(x.body())
+    return False
